@@ -43,6 +43,22 @@ def _worker(st, ctx):
             f.append(("index", "inputs / outputs lists are not in the order given"))
     if f:
         return out
+    if typ != "counts" and typ != "probability_amplitude" and len(st["maps"]) >= 1 and not st["rej"]:
+        # both mapping kinds applied to the SAME (unmapped) object, one after the other: each answer is that of its own kind
+        def image(occ, kind_, inv_):
+            return tuple((1 - min(n, 1) if inv_ else min(n, 1)) if kind_ == "threshold" else ((1 - n % 2) if inv_ else n % 2) for n in occ)
+        r0 = SimulationResult(np.array(val0, dtype=float), typ, inputs=ins, outputs=outs0)
+        for kind_, inv_ in (("threshold", st["maps"][0][1]), ("parity", st["maps"][0][1]), ("threshold", st["maps"][0][1])):
+            rm = r0.apply_threshold_mapping(invert=inv_) if kind_ == "threshold" else r0.apply_parity_mapping(invert=inv_)
+            want = {}
+            for j, o in enumerate(st["outs0"]):
+                for i in range(len(ins)):
+                    want[(i, image(tuple(o), kind_, inv_))] = want.get((i, image(tuple(o), kind_, inv_)), 0) + val0[i][j]
+            got = {(i, tuple(o.s)): rm.array[i, j] for i in range(len(ins)) for j, o in enumerate(rm.outputs)}
+            if set(got) != set(want) or any(abs(got[k] - want[k]) > 1e-12 for k in want):
+                f.append(("mapping", "%s mapping (invert=%s) applied to an object that had been mapped with the other kind before gives %s, expected %s"
+                          % (kind_, inv_, sorted(got.items())[:4], sorted(want.items())[:4])))
+                return out
     if typ == "probability_amplitude" and st["maps"]:
         # an amplitude-valued result whose array happens to hold real numbers is still amplitude-valued
         r2 = SimulationResult(np.array(val0, dtype=float), typ, inputs=ins, outputs=outs0)
